@@ -7,7 +7,6 @@ import (
 	"io"
 	"os"
 	"os/exec"
-	"regexp"
 	"runtime"
 	"strings"
 	"sync"
@@ -258,7 +257,7 @@ func runPoolRecording(o *poolOpts, onRun func(*wline)) *aggregate {
 		spawn()
 	}
 	assign := func(w *workerProc) {
-		if len(queue) == 0 || (o.maxViol > 0 && len(agg.violations) >= o.maxViol) {
+		if len(queue) == 0 || (o.maxViol > 0 && len(agg.violations)+len(agg.suspects) >= o.maxViol) {
 			w.closing = true
 			w.hasChunk = false
 			w.stdin.Close()
@@ -373,40 +372,4 @@ func lastLines(s string, n int) string {
 	return strings.Join(ls, " | ")
 }
 
-var frameRe = regexp.MustCompile(`go-text/typesetting/([A-Za-z0-9_/]+\.[^\s(]+(?:\([^)]*\))?[^\s(]*)\(`)
-
-// fatalClass derives a violation class from the stderr of a worker that died:
-// the first fatal/panic line plus the first library frame of the stack trace.
-func fatalClass(stderr string) (class, first string) {
-	kind := "died"
-	for _, ln := range strings.Split(stderr, "\n") {
-		t := strings.TrimSpace(ln)
-		if strings.HasPrefix(t, "fatal error:") || strings.HasPrefix(t, "panic:") || strings.HasPrefix(t, "runtime: goroutine stack exceeds") {
-			first = t
-			switch {
-			case strings.Contains(t, "stack"):
-				kind = "stack-overflow"
-			case strings.Contains(t, "out of memory") || strings.Contains(t, "cannot allocate"):
-				kind = "out-of-memory"
-			case strings.Contains(t, "concurrent map"):
-				kind = "concurrent-map-access"
-			case strings.HasPrefix(t, "panic:"):
-				kind = "unrecovered-panic"
-			default:
-				kind = "fatal"
-			}
-			break
-		}
-	}
-	site := "unknown"
-	for _, ln := range strings.Split(stderr, "\n") {
-		if strings.Contains(ln, "/verifsim.") {
-			continue
-		}
-		if m := frameRe.FindStringSubmatch(ln); m != nil {
-			site = m[1]
-			break
-		}
-	}
-	return "fatal:" + kind + "@" + site, first
-}
+func fatalClass(stderr string) (class, first string) { return kernel.FatalClass(stderr) }
